@@ -222,13 +222,40 @@ def run(M, rep, tier, only=None):
     # ---------------- R5
     ctx = Ctx(M)
     cg = ctx.cg
+    gate = lambda q: q.startswith("nixio.file:File.__init__") or q.startswith("nixio.cmd.")
     for q, ops in sorted(cg.ops.items()):
         hits = sorted(o[1] for o in ops if o[0] == "raw" and o[1] in ("h5py.h5f.create", "h5py.h5f.open", "h5py.File"))
         if not hits:
             continue
-        allowed = q.startswith("nixio.file:File.__init__") or q.startswith("nixio.cmd.")
+        allowed = gate(q) or only_called_from_gate(cg, q, gate)
         rep.check(R5, q, allowed, "%s opens/creates an HDF5 file outside File.__init__ (%s)" % (q, ", ".join(hits)),
                   what=", ".join(hits))
+
+
+def only_called_from_gate(cg, q, gate):
+    """a private helper (leading underscore, not a dunder) is part of the gate when every resolved caller is the gate or such
+    a helper of it -- File.__init__ may be split into private pieces; a public or uncalled function that opens files is not"""
+    callers = {}
+    for a, cs in cg.edges.items():
+        for c in cs:
+            callers.setdefault(c, set()).add(a)
+    seen = set()
+    todo = [q]
+    while todo:
+        x = todo.pop()
+        if x in seen:
+            continue
+        seen.add(x)
+        if gate(x):
+            continue
+        name = x.split(":")[-1].split(".")[-1]
+        if not name.startswith("_") or (name.startswith("__") and name.endswith("__")):
+            return False
+        cs = callers.get(x)
+        if not cs:
+            return False
+        todo.extend(cs)
+    return True
 
 
 def mode_values(M):
